@@ -47,14 +47,16 @@ class Watch:
     pass
 
 
-def _snapshot(pid):
-    """(all threads sleeping?, number of threads, total context switches, has children)"""
+def _snapshot(pid, depth=0):
+    """(all threads sleeping?, number of threads, total context switches) of the process AND its descendants (the
+    sanitizer runtime keeps an idle llvm-symbolizer child alive after its first report; LeakSanitizer forks a tracer)"""
     tdir = "/proc/%d/task" % pid
     try:
         tids = os.listdir(tdir)
     except OSError:
         return None
     sw = 0
+    n = len(tids)
     sleeping = True
     for t in tids:
         try:
@@ -66,12 +68,20 @@ def _snapshot(pid):
             sleeping = False
         for mm in re.finditer(r"ctxt_switches:\s+(\d+)", st):
             sw += int(mm.group(1))
-    kids = ""
-    try:
-        kids = open("%s/%d/children" % (tdir, pid)).read().strip()
-    except OSError:
-        pass
-    return sleeping, len(tids), sw, bool(kids)
+        if depth < 3:
+            try:
+                kids = open("%s/%s/children" % (tdir, t)).read().split()
+            except OSError:
+                kids = []
+            for k in kids:
+                ks = _snapshot(int(k), depth + 1)
+                if ks is None:
+                    sleeping = False
+                    continue
+                sleeping = sleeping and ks[0]
+                n += ks[1]
+                sw += ks[2]
+    return sleeping, n, sw
 
 
 def run_watch(cmd, env, hard_timeout, gdb_out=None):
@@ -96,7 +106,7 @@ def run_watch(cmd, env, hard_timeout, gdb_out=None):
         except subprocess.TimeoutExpired:
             pass
         s = _snapshot(p.pid)
-        if s and s[0] and not s[3] and prev is not None and s[1:3] == prev[1:3]:
+        if s and s[0] and prev is not None and s[1:3] == prev[1:3]:
             same += step
         else:
             same = 0.0
@@ -231,6 +241,36 @@ def leak_sites(san):
     return sorted(set(out))
 
 
+_TEARDOWN_FRAME = re.compile(r"deinit|_dctor|destroy|stop_threads|svt_shutdown_process")
+
+
+def asan_reports(prefix, stderr_text):
+    """-> (reports whose stacks involve teardown code, keys of the others).  A report that involves no teardown frame
+    (neither in the faulting stack nor in the freed-by / allocated-by stacks) is an encode/decode-time defect: C11/C09's
+    subject, recorded here but not judged."""
+    import glob
+    texts = [stderr_text or ""]
+    for path in sorted(glob.glob(prefix + ".asan.*") + glob.glob(prefix + ".ubsan.*")):
+        try:
+            texts.append(open(path, errors="replace").read())
+        except OSError:
+            pass
+    inside, outside = [], []
+    for t in texts:
+        parts = re.split(r"(?m)^(?==+\d+=+ERROR: AddressSanitizer)", t)
+        for blk in parts[1:]:
+            end = blk.find("\nSUMMARY:")
+            body = blk if end < 0 else blk[:end]
+            ks = [x for x in sanlog.parse_asan(blk) if x[0].startswith("asan|")]
+            if not ks:
+                continue
+            if _TEARDOWN_FRAME.search(body):
+                inside.append(ks[0])
+            else:
+                outside.append(ks[0][0])
+    return inside, outside
+
+
 def judge(chk, comp, point, case, prefix, w, flavour):
     """-> verdict 'held' | 'violated' | 'inconclusive' | 'stalled' ; reports violations"""
     tail = log_tail(prefix)
@@ -257,7 +297,9 @@ def judge(chk, comp, point, case, prefix, w, flavour):
     if not san and w.stderr and ("Sanitizer" in w.stderr):
         san = sanlog.parse_stderr(flavour, w.stderr)
     bad = False
-    asan = [(k, ex) for k, ex in san if k.startswith("asan|")]
+    asan, outside = asan_reports(prefix, w.stderr)
+    for k in outside:
+        chk.note_set("asan_reports_outside_teardown(not judged here)", k)
     died = w.rc not in (0, 3)
     for k, ex in asan[:2]:
         p = k.split("|")
@@ -266,11 +308,11 @@ def judge(chk, comp, point, case, prefix, w, flavour):
         chk.violation("C15|teardown-crash|%s|%s:%s" % (point, kind, p[2]),
                       "AddressSanitizer report during a session torn down %s (rc=%s); log tail: %s\n%s"
                       % (point, w.rc, " / ".join(tail), ex[:600]), info, name="crash-" + core.sha(point, k))
-    if died and not asan:
+    if died and not asan and not outside:
         chk.violation("C15|teardown-crash|%s|rc=%s" % (point, w.rc),
                       "process died rc=%s; log tail: %s; stderr: %s" % (w.rc, " / ".join(tail), w.stderr[-300:]), info)
     if died:
-        return "violated", "crash"
+        return ("violated", "crash") if (asan or not outside) else ("inconclusive", "died outside teardown: %s" % outside[:1])
     sess = read_sessions(prefix)
     if not sess:
         return ("violated", "asan") if bad else ("inconclusive", "no session report (rc=%s)" % w.rc)
@@ -305,7 +347,9 @@ def heap_growth(chk, scenario, sess, info):
     worst = max(s["heap_inuse"] for s in sess[3:])
     grow = worst - base
     per = (sess[-1]["heap_inuse"] - base) / float(len(sess) - 3)
-    if grow > HEAP_SLACK:
+    vals = [s["heap_inuse"] for s in sess[2:]]
+    monotone = len(vals) >= 10 and all(b > a for a, b in zip(vals, vals[1:]))
+    if grow > HEAP_SLACK or monotone:
         chk.violation("C15|heap-growth|%s" % scenario,
                       "in-use heap grows over repeated sessions: %d bytes after session 2, %d after session %d "
                       "(%.0f bytes/session; slack %d)" % (base, sess[-1]["heap_inuse"], len(sess) - 1, per, HEAP_SLACK), info)
@@ -374,17 +418,16 @@ def gen_cases(rng, tier, scale):
     return cases
 
 
+TINY_IVF = os.path.join(build.VERIF, "corpus", "tiny64x64_6f.ivf")
+
+
 def make_ivf(chk):
-    prefix = os.path.join(chk.dir, "decin")
-    case = {"width": 64, "height": 64, "frames": 6, "cfg.enc_mode": 8, "cfg.logical_processors": 1,
-            "cfg.intra_period_length": -1, "cfg.hierarchical_levels": 3, "content": "pan"}
-    for _ in range(2):
-        res = enc.run_case("asan", case, prefix)
-        if not res.timed_out:
-            break
-    if res.rc != 0 or not os.path.exists(prefix + ".ivf"):
-        raise core.HarnessError("cannot produce the decoder input stream: rc=%s %s" % (res.rc, res.stderr[-300:]))
-    return prefix + ".ivf"
+    """Decoder input: a committed 6-picture 64x64 stream (produced by this encoder, preset 8).  It is NOT regenerated per
+    run: a teardown defect of the encoder under test (this property's subject) must not take the decoder half of the
+    check down with it."""
+    if not os.path.exists(TINY_IVF) or len(enc.read_ivf(TINY_IVF)) < 6:
+        raise core.HarnessError("missing decoder input " + TINY_IVF)
+    return TINY_IVF
 
 
 def hard_timeout(comp, case):
@@ -395,7 +438,8 @@ def hard_timeout(comp, case):
 def run_one(chk, i, comp, point, case, ivf, flavour="asan"):
     prefix = os.path.join(chk.dir, "s%04d" % i)
     env = {"SVT_LOG": "1"}
-    env.update(sanlog.env_for(flavour, prefix, detect_leaks=True))
+    # stack-use-after-return findings of the encoding kernels are C11's subject and double the memory traffic
+    env.update(sanlog.env_for(flavour, prefix, detect_leaks=True, extra_asan="detect_stack_use_after_return=0"))
     if comp.startswith("enc"):
         c = dict(case)
         c["out"] = prefix
